@@ -375,6 +375,14 @@ func (conn *obfs4Conn) clientHandshake(nodeID *ntor.NodeID, peerIdentityKey *nto
 		conn.encoder = framing.NewEncoder(okm[:framing.KeyLength])
 		conn.decoder = framing.NewDecoder(okm[framing.KeyLength:])
 
+		// Frames that arrived along with the server's handshake response
+		// are already in the receive buffer, process them now as the peer
+		// may not send anything else until it receives a reply, and Read()
+		// only decodes after it has read from the network.
+		if err := conn.decodePackets(); err != nil && !errors.Is(err, framing.ErrAgain) {
+			return err
+		}
+
 		return nil
 	}
 }
